@@ -439,6 +439,9 @@ Definition clip_range (t : Z) (groups : list group) (se : Z * Z) : Z * Z :=
                  let e1 := if (t <? g_start g)%Z && (g_start g <? e0)%Z then g_start g else e0 in
                  (s1, e1)) groups se.
 
+(* time.Unix(0, math.MinInt64): MinInt64 = -(MaxNanoTime + 2) *)
+Definition min_unix_nano : Z := (- (c06_max_nano_time + 2))%Z.
+
 (* owners of shard number i: replicaN consecutive nodes, round robin *)
 Definition rr_owners (ids : list N) (start r : N) (i : nat) : list N :=
   map (fun j => nth (N.to_nat ((start + N.of_nat i * r + N.of_nat j) mod llen ids)) ids 0)
@@ -451,6 +454,8 @@ Definition new_group (d : data) (r : policy) (t : Z) : group :=
   let s0 := time_truncate t (rp_sgdur r) in
   let e0 := (s0 + rp_sgdur r)%Z in
   let e0 := if (c06_max_nano_time <? e0)%Z then (c06_max_nano_time + 1)%Z else e0 in
+  (* as repaired: a start before the int64 range of Unix nanoseconds is clamped to it *)
+  let s0 := if (s0 <? min_unix_nano)%Z then min_unix_nano else s0 in
   let se := clip_range t (rp_groups r) (s0, e0) in
   let ids := map n_id (d_nodes d) in
   let start := d_index d mod n in
